@@ -256,6 +256,11 @@ func unitC15(x *ctx) {
 			"pipeline-null":     "pipelines:\n  p: ~\n",
 			"pipeline-stage-null": "pipelines:\n  p:\n    - ~\n",
 			"task-null":         "tasks:\n  t: ~\n",
+			"pipeline-self":     "tasks:\n  t:\n    command: echo\npipelines:\n  a:\n    - task: t\n    - pipeline: a\n      name: again\n",
+			"pipeline-loop":     "tasks:\n  t:\n    command: echo\npipelines:\n  a:\n    - pipeline: b\n  b:\n    - pipeline: a\n",
+			"pipeline-loop-behind-entries": "tasks:\n  t:\n    command: echo\npipelines:\n  a:\n    - pipeline: b\n  b:\n    - pipeline: a\n  e00:\n    - pipeline: a\n  e01:\n    - pipeline: a\n  e02:\n    - pipeline: a\n  e03:\n    - pipeline: a\n  e04:\n    - pipeline: a\n  e05:\n    - pipeline: a\n  e06:\n    - pipeline: a\n  e07:\n    - pipeline: a\n  e08:\n    - pipeline: a\n  e09:\n    - pipeline: a\n  e10:\n    - pipeline: a\n  e11:\n    - pipeline: a\n",
+			"pipeline-deep-nesting": "tasks:\n  t:\n    command: echo\npipelines:\n  p1:\n    - pipeline: p2\n  p2:\n    - pipeline: p3\n  p3:\n    - pipeline: p4\n  p4:\n    - pipeline: p5\n  p5:\n    - task: t\n",
+			"pipeline-diamond-nesting": "tasks:\n  t:\n    command: echo\npipelines:\n  top:\n    - pipeline: l\n    - pipeline: r\n  l:\n    - pipeline: leaf\n  r:\n    - pipeline: leaf\n  leaf:\n    - task: t\n",
 			"watcher-null":      "watchers:\n  w: ~\n",
 		}
 		extra := map[string]string{
